@@ -36,22 +36,40 @@ Section Pieces.
     match e with [8; g; hr; _] | [8; g; hr; _; _] => if nz hr then (m_out m ++ [g])%list else m_out m | _ => m_out m end.
   Definition u_empty : list N :=
     match e with [8; g; _; _; z] => if nz z then (m_empty m ++ [g])%list else m_empty m | _ => m_empty m end.
+  Definition u_emptyok : list N :=
+    match e with [8; g; _; er; z] => if nz z && N.eqb er 0 then (m_emptyok m ++ [g])%list else m_emptyok m | _ => m_emptyok m end.
+  Definition u_vofe (g : N) : N := if mem g u_empty then 0 else u_vof g.
   Definition u_newcalls : list N := map (fun x => let '(id, _, _) := x in id) (po_rels p).
   Definition u_called : list N := (m_called m ++ u_newcalls)%list.
   Definition u_out : list N := filter (fun g => negb (mem g u_newcalls)) u_out1.
   Definition u_stored_now : option (N * N) :=
     match e with
-    | [9; g] => if N.eqb (po_target p) (u_vof g) && N.eqb (po_terr p) 0 then Some (g, 0)
+    | [9; g] => if mem g u_emptyok then (if Nat.eqb (S (n2n g)) u_ng && nz u_ctx && Nat.ltb 0 u_nin then Some (g, 0) else None)
+                else if N.eqb (po_target p) (u_vof g) && N.eqb (po_terr p) 0 then Some (g, 0)
                 else if nz (po_terr p) && negb (match m_cur m with Some (_, e0) => N.eqb e0 (po_terr p) | None => false end) then Some (g, po_terr p)
                 else None
     | _ => None
     end.
+  Definition u_removed_last (r : nat) : bool := nth r (m_in m) false && Nat.eqb (cntb (m_in m)) 1.
+  Definition u_cleared : bool :=
+    match m_cur m with
+    | None => false
+    | Some (c, e0) =>
+      match e with
+      | [1; _] => match po_rets p with [u] => nz u | _ => false end
+      | [5; g] | [6; _; g] => N.eqb c g
+      | [4; a] => u_removed_last (nth (n2n a) (m_raref m) 0%nat) && negb (m_keep m && N.eqb e0 0)
+      | [12; c0] => u_removed_last (nth (n2n c0) (m_cref m) 0%nat) && negb (m_keep m && N.eqb e0 0)
+      | _ => false
+      end
+    end.
   Definition u_cur2 : option (N * N) := match u_stored_now with Some x => Some x | None => m_cur m end.
   Definition u_cur : option (N * N) :=
-    match u_cur2 with
-    | Some (g, e0) => if (if N.eqb e0 0 then N.eqb (po_target p) (u_vof g) && N.eqb (po_terr p) 0 else N.eqb (po_terr p) e0) then u_cur2 else None
-    | None => None
-    end.
+    if u_cleared then None
+    else match u_cur2 with
+         | Some (g, e0) => if (if N.eqb e0 0 then N.eqb (po_target p) (u_vofe g) && N.eqb (po_terr p) 0 else N.eqb (po_terr p) e0) then u_cur2 else None
+         | None => None
+         end.
   Definition u_f8_1 := fails 8 1 (nodupb u_called).
   Definition u_f8_2 := fails 8 2 (forallb (fun x => let '(id, tg, stale) := x in negb (N.eqb tg (id + 1)) && N.eqb stale 0) (po_rels p)).
   Definition u_dropped_last : bool := Nat.eqb u_nin 0.
@@ -59,7 +77,7 @@ Section Pieces.
                 match e with
                 | [1; _] => match po_rets p with [u] => nz u | _ => false end
                 | [4; _] | [12; _] => u_dropped_last
-                | [5; _] | [6; _] => true
+                | [5; _] | [6; _; _] => true
                 | [9; g] => N.eqb id g
                 | _ => false
                 end) u_newcalls).
@@ -117,7 +135,7 @@ Section Pieces.
     end.
   Definition u_inval : list bool :=
     map (fun t => let '(iv, hv, k) := t in
-                       iv || (N.eqb k 1 && match u_lost, hv with Some g, Some v => N.eqb v (g + 1) | _, _ => false end))
+                       iv || (N.eqb k 1 && match u_lost, hv with Some g, Some v => N.eqb v (u_vofe g) | _, _ => false end))
                     (zip3 u_inval1 u_holds u_ckind).
   Definition u_f10_3 := fails 10 3 (negb u_quiet ||
                  forallb (fun t => let '(iv, (_, _, _, _, fired, _)) := t in negb iv || N.eqb fired 1)
@@ -155,7 +173,7 @@ Section Pieces.
       let expected := if mine && ccb then 1 else if fromcb then rc else if nz u_cur_err then u_cur_err else 1 in
       let adec' := if decnow then Some (expected, fromcb) else adec in
       let decided' := match adec' with Some _ => true | None => false end in
-      let c4 := fails 10 4 (negb started || match u_cur with Some (g, e0) => N.eqb e0 0 && N.eqb v (u_vof g) | None => false end) in
+      let c4 := fails 10 4 (negb started || match u_cur with Some (g, e0) => N.eqb e0 0 && N.eqb v (u_vofe g) | None => false end) in
       let c5 := fails 10 5 (negb (cbnow && inv') || nz h) in
       let c6 := fails 10 6 (negb (decnow && mine && negb ccb) || negb ainv || nz u_cur_err) in
       let c6r := fails 10 6 (match adec' with Some (x, true) => negb (N.eqb code 3) || N.eqb v x | _ => true end) in
@@ -175,7 +193,7 @@ Section Pieces.
        m_acb := map (fun j => let '(a, _, _, _, _) := j in a) u_judged;
        m_acanc := map (fun j => let '(_, a, _, _, _) := j in a) u_judged;
        m_ainv := map (fun j => let '(_, _, a, _, _) := j in a) u_judged;
-       m_adec := map (fun j => let '(_, _, _, a, _) := j in a) u_judged; m_rootc := u_rootc; m_empty := u_empty |}.
+       m_adec := map (fun j => let '(_, _, _, a, _) := j in a) u_judged; m_rootc := u_rootc; m_empty := u_empty; m_emptyok := u_emptyok |}.
 
   Lemma mon1_eq : mon1 m e p = (u_mst, ((if m_const m then [] else u_all) ++ u_facc)%list).
   Proof. reflexivity. Qed.
